@@ -182,6 +182,7 @@ CaseResult run_compressed(const RunCtx &ctx, TapeReader &t, unsigned size_hint) 
     o.xprocs = ctx.x("xprocs");
     o.allow_giant = ctx.mode != "mem";
     o.mixed_runs = ctx.mode != "mem";
+    o.exact_segments = true;
     std::vector<K> keys = gen_keys<K>(t, o, meta);
     const bool excluded = false; // KF-2 (last key near the numeric maximum) was repaired; nothing is excluded any more
     std::ostringstream head;
@@ -422,6 +423,7 @@ CaseResult run_ef(const RunCtx &ctx, TapeReader &t, unsigned size_hint) {
     o.allow_giant = ctx.mode != "mem";
     o.pow2_span_edge = true;
     o.ef_bimodal = ctx.mode != "mem";
+    o.exact_segments = true;
     std::vector<K> keys = gen_keys<K>(t, o, meta);
 
     const bool excluded = false; // KF-3 (64-bit keys, first key 0, last key max-1) was repaired; nothing is excluded any more
